@@ -107,21 +107,13 @@ class VttContext:
   def process_inline_element(self, element: model.ContentElement, begin: Fraction, end: Optional[Fraction]):
     """Converts inline element (span and br) to VTT content"""
 
-    if isinstance(element, model.Span):
-      is_bold = style.is_element_bold(element)
-      is_italic = style.is_element_italic(element)
-      is_underlined = style.is_element_underlined(element)
-      color = style.get_color(element)
-      bg_color = style.get_background_color(element)
+    if isinstance(element, (model.Ruby, model.Rbc, model.Rb)):
+      # only the ruby bases are written
+      for elem in list(element):
+        self.process_inline_element(elem, begin, end)
 
-      if color is not None:
-        if self._colors_used.get(color) is None:
-          color_classname = style.get_color_classname(color)
-          self._colors_used[color] = color_classname
-          self._css_classes.append(CssClass("color", color, color_classname))
-        else:
-          color_classname = self._colors_used[color]
-        self._paragraphs[-1].append_text(style.COLOR_TAG_IN.format(color_classname))
+    if isinstance(element, model.Span):
+      bg_color = style.get_background_color(element)
 
       if bg_color is not None:
         if self._background_colors_used.get(bg_color) is None:
@@ -130,34 +122,50 @@ class VttContext:
           self._css_classes.append(CssClass("background-color", bg_color, bg_color_classname))
         else:
           bg_color_classname = self._background_colors_used[bg_color]
-        self._paragraphs[-1].append_text(style.BG_COLOR_TAG_IN.format(bg_color_classname))
-
-      if is_bold:
-        self._paragraphs[-1].append_text(style.BOLD_TAG_IN)
-      if is_italic:
-        self._paragraphs[-1].append_text(style.ITALIC_TAG_IN)
-      if is_underlined:
-        self._paragraphs[-1].append_text(style.UNDERLINE_TAG_IN)
+        self._paragraphs[-1].append_markup(style.BG_COLOR_TAG_IN.format(bg_color_classname))
 
       for elem in list(element):
         self.process_inline_element(elem, begin, end)
 
-      if is_underlined:
-        self._paragraphs[-1].append_text(style.UNDERLINE_TAG_OUT)
-      if is_italic:
-        self._paragraphs[-1].append_text(style.ITALIC_TAG_OUT)
-      if is_bold:
-        self._paragraphs[-1].append_text(style.BOLD_TAG_OUT)
-      if color is not None:
-        self._paragraphs[-1].append_text(style.COLOR_TAG_OUT)
       if bg_color is not None:
-        self._paragraphs[-1].append_text(style.BG_COLOR_TAG_OUT)
+        self._paragraphs[-1].append_markup(style.BG_COLOR_TAG_OUT)
 
     if isinstance(element, model.Br):
       self._paragraphs[-1].append_text("\n")
 
     if isinstance(element, model.Text):
-      self._paragraphs[-1].append_text(element.get_text())
+      # the tags follow the computed style of the span that contains the text
+      span = element.parent()
+      is_bold = style.is_element_bold(span)
+      is_italic = style.is_element_italic(span)
+      is_underlined = style.is_element_underlined(span)
+      color = style.get_color(span)
+
+      if color is not None:
+        if self._colors_used.get(color) is None:
+          color_classname = style.get_color_classname(color)
+          self._colors_used[color] = color_classname
+          self._css_classes.append(CssClass("color", color, color_classname))
+        else:
+          color_classname = self._colors_used[color]
+        self._paragraphs[-1].append_markup(style.COLOR_TAG_IN.format(color_classname))
+      if is_bold:
+        self._paragraphs[-1].append_markup(style.BOLD_TAG_IN)
+      if is_italic:
+        self._paragraphs[-1].append_markup(style.ITALIC_TAG_IN)
+      if is_underlined:
+        self._paragraphs[-1].append_markup(style.UNDERLINE_TAG_IN)
+
+      self._paragraphs[-1].append_text(element.get_text().replace("&", "&amp;").replace("<", "&lt;").replace(">", "&gt;"))
+
+      if is_underlined:
+        self._paragraphs[-1].append_markup(style.UNDERLINE_TAG_OUT)
+      if is_italic:
+        self._paragraphs[-1].append_markup(style.ITALIC_TAG_OUT)
+      if is_bold:
+        self._paragraphs[-1].append_markup(style.BOLD_TAG_OUT)
+      if color is not None:
+        self._paragraphs[-1].append_markup(style.COLOR_TAG_OUT)
 
   def process_p(self, region: ISD.Region, element: model.P, begin: Fraction, end: Optional[Fraction]):
     """Process p element"""
